@@ -119,12 +119,18 @@ Definition strip_sign (s : str) : bool * str :=
   | 43 :: s' => (false, s')
   | _ => (false, s)
   end.
+(* int() and float() ignore surrounding (ASCII) whitespace *)
+Definition is_ws (c : Z) : bool := (c =? 32) || ((9 <=? c) && (c <=? 13)).
+Fixpoint drop_ws (s : str) : str :=
+  match s with c :: s' => if is_ws c then drop_ws s' else s | [] => [] end.
+Definition py_strip (s : str) : str := rev (drop_ws (rev (drop_ws s))).
+
 Definition parse_int (s : str) : option Z :=
-  let '(neg, b) := strip_sign s in
+  let '(neg, b) := strip_sign (py_strip s) in
   if negb (is_nil b) && all_digits b then Some (if neg then - digits_val 0 b else digits_val 0 b) else None.
 
 Definition parse_decimal (s : str) : option Q :=
-  let '(neg, b) := strip_sign s in
+  let '(neg, b) := strip_sign (py_strip s) in
   match split [46] b with
   | [i] => if negb (is_nil i) && all_digits i
            then Some (inject_Z (if neg then - digits_val 0 i else digits_val 0 i)) else None
